@@ -1,16 +1,19 @@
 package main
 
 import (
+	"fmt"
 	"go/ast"
+	"go/constant"
 	"go/token"
 	"go/types"
 	"sort"
+	"strings"
 )
 
 func init() { register("C10", propC10) }
 
 func propC10(r *Report, tier string) {
-	r.Explanation = "Structural necessary conditions of 'facet counts describe all matches, not the page': (a) in TopNCollector.Collect every match handed to the document-match handler (where it may be evicted from the bounded store) has first gone through prepareDocumentMatch, which visits the doc values of the needed fields, unless the fast path applies; the fast path requires that no field is needed; SetFacetsBuilder makes every facet field needed exactly once (no duplicate entry: a field listed twice is visited twice and every value counted twice); (b) typestate StartDoc -> VisitDocValues -> EndDoc per match; (c) K12 sibling agreement of the facet builders: StartDoc clears sawValue, UpdateVisitor is the only writer of total and the bucket counts, EndDoc counts a missing document only when no value was seen, range builders test the value against EVERY range (no early exit from the range loop); (d) the doc-value visitor forwards each value to both the facets builder and the sort."
+	r.Explanation = "Structural necessary conditions of 'facet counts describe all matches, not the page': (a) in TopNCollector.Collect every match handed to the document-match handler (where it may be evicted from the bounded store) has first gone through prepareDocumentMatch, which visits the doc values of the needed fields, unless the fast path applies; the fast path requires that no field is needed; SetFacetsBuilder makes every facet field needed exactly once (no duplicate entry: a field listed twice is visited twice and every value counted twice); (b) typestate StartDoc -> VisitDocValues -> EndDoc per match; (c) K12 sibling agreement of the facet builders: StartDoc clears sawValue, UpdateVisitor is the only writer of total and the bucket counts, EndDoc counts a missing document only when no value was seen, range builders test the value against EVERY range (no early exit from the range loop); (d) the doc-value visitor forwards each value to both the facets builder and the sort; (e) the predicate whose truth lets a segment skip filling its uninverted doc-value cache answers for all wanted fields, never from inside its loop over them; (f) the tally a facet builder subtracts from the total to give Other is taken over the result's own (sorted, trimmed) list."
 	r.NotCovered = "the counts themselves, bucket ordering, the [min,max) boundary arithmetic, doc-value contents"
 	ruleCollectPreparesBeforeHandler(r, "K5-prepare-before-store")
 	ruleNeededFieldsComplete(r, "K8-facet-fields-needed-once")
@@ -21,6 +24,8 @@ func propC10(r *Report, tier string) {
 	rulePerSegmentFieldsInvalidatedOnSwitch(r, "K5-per-segment-fields-invalidated")
 	ruleLookupMissSkipsOnlyTheItem(r, "K13-lookup-miss-skips-only-the-item", "index/scorch", "search/facet", "search/collector", "search")
 	ruleRegistriesUpdatedTogether(r, "K14-registries-updated-together", "search.(*FacetsBuilder).Add", "FacetsBuilder", []string{"facetNames", "facets", "facetsByField"})
+	ruleCacheCompletePredicateIsUniversal(r, "K13-cache-complete-predicate-universal")
+	ruleOtherCountsTheListedBuckets(r, "K5-other-counts-listed-buckets")
 	r.Floor("K5-prepare-before-store", 3)
 	r.Floor("K8-facet-fields-needed-once", 2)
 	r.Floor("K1-startdoc-visit-enddoc", 3)
@@ -198,6 +203,19 @@ func ruleNeededFieldsComplete(r *Report, rule string) {
 			}
 			return true
 		})
+	}
+	// (4) the library membership test on the CURRENT list: !slices.Contains(hc.neededFields, field)
+	for _, f := range facts {
+		c, ok := ast.Unparen(f.Expr).(*ast.CallExpr)
+		if !ok || f.Truth || f.Tag != nil || len(c.Args) != 2 {
+			continue
+		}
+		if fn := callee(info, c); fn != nil && fn.Pkg() != nil && fn.Pkg().Path() == "slices" && fn.Name() == "Contains" {
+			o := objOf(info, resolveCopies(info, fi.Decl.Body, c.Args[1]))
+			if isField(info, c.Args[0], "TopNCollector", "neededFields") && o != nil && outer.Value != nil && o == objOf(info, outer.Value) {
+				okDedupe = true
+			}
+		}
 	}
 	if !okDedupe {
 		// (3) whatever the spelling (found flag, helper, early continue): some test compares an element of the
@@ -481,4 +499,234 @@ func sameGuardModuloErrors(info *types.Info, a, b []Fact) bool {
 		}
 	}
 	return true
+}
+
+// ruleCacheCompletePredicateIsUniversal (K13): the uninverted doc-value cache
+// of a segment is filled by cachedDocs.prepareFields, and the fill is skipped
+// when a boolean method of the cache says that the wanted fields are already
+// there.  That method therefore has to mean "ALL of them": a `return true`
+// issued from inside its loop over the wanted fields answers after looking at
+// one field only, the remaining fields are never uninverted and their values
+// silently miss from facets and sorts.  The predicate is found by its role (the
+// call whose falsity guards prepareFields), not by its name.
+func ruleCacheCompletePredicateIsUniversal(r *Report, rule string) {
+	p := r.P
+	n := 0
+	for _, fi := range p.flist {
+		if fi.Decl == nil || fi.Decl.Body == nil || !strings.HasSuffix(fi.Pkg.PkgPath, "index/scorch") {
+			continue
+		}
+		info := fi.Pkg.TypesInfo
+		fills := callsMatching(info, fi.Decl.Body, func(f *types.Func) bool {
+			return strings.HasSuffix(funcName(f), "index/scorch.(*cachedDocs).prepareFields")
+		})
+		if len(fills) == 0 {
+			continue
+		}
+		g := buildCFG(info, fi.Decl.Body)
+		for _, fill := range fills {
+			var preds []*types.Func
+			// a fill started in a closure (`go func() { ... }()`) is guarded by what guards that statement
+			var at ast.Node = fill
+			anc := enclosing(fi.Decl.Body, fill)
+			for i, a := range anc {
+				if _, isLit := a.(*ast.FuncLit); isLit {
+					for j := i - 1; j >= 0; j-- {
+						if st, isStmt := anc[j].(ast.Stmt); isStmt {
+							at = st
+							break
+						}
+					}
+					break
+				}
+			}
+			for _, fc := range g.GuardsOf(at) {
+				if fc.Tag != nil {
+					continue
+				}
+				e := ast.Unparen(fc.Expr)
+				truth := fc.Truth
+				for {
+					u, isNot := e.(*ast.UnaryExpr)
+					if !isNot || u.Op != token.NOT {
+						break
+					}
+					e, truth = ast.Unparen(u.X), !truth
+				}
+				c, isCall := e.(*ast.CallExpr)
+				if !isCall || truth {
+					continue
+				}
+				f := callee(info, c)
+				if f == nil {
+					continue
+				}
+				if sig, _ := f.Type().(*types.Signature); sig != nil && sig.Recv() != nil {
+					if nt := namedOf(sig.Recv().Type()); nt != nil && nt.Obj().Name() == "cachedDocs" {
+						preds = append(preds, f)
+					}
+				}
+			}
+			seen := map[*types.Func]bool{}
+			for _, f := range preds {
+				if seen[f] {
+					continue
+				}
+				seen[f] = true
+				pfi := p.Func(funcName(f))
+				if pfi == nil || pfi.Decl == nil || pfi.Decl.Body == nil {
+					continue
+				}
+				r.Fn(pfi)
+				pinfo := pfi.Pkg.TypesInfo
+				psig := f.Type().(*types.Signature)
+				coll := map[types.Object]bool{}
+				for i := 0; i < psig.Params().Len(); i++ {
+					if _, isSlice := psig.Params().At(i).Type().Underlying().(*types.Slice); isSlice {
+						coll[psig.Params().At(i)] = true
+					}
+				}
+				bad := token.NoPos
+				ast.Inspect(pfi.Decl.Body, func(x ast.Node) bool {
+					var body *ast.BlockStmt
+					switch l := x.(type) {
+					case *ast.RangeStmt:
+						if coll[objOf(pinfo, l.X)] {
+							body = l.Body
+						}
+					case *ast.ForStmt:
+						if be, ok := l.Cond.(*ast.BinaryExpr); ok {
+							if c, ok := ast.Unparen(be.Y).(*ast.CallExpr); ok && calleeBuiltin(pinfo, c) == "len" && len(c.Args) == 1 && coll[objOf(pinfo, c.Args[0])] {
+								body = l.Body
+							}
+						}
+					}
+					if body == nil {
+						return true
+					}
+					ast.Inspect(body, func(y ast.Node) bool {
+						if _, isLit := y.(*ast.FuncLit); isLit {
+							return false
+						}
+						if rs, ok := y.(*ast.ReturnStmt); ok && len(rs.Results) == 1 {
+							if tv, has := pinfo.Types[rs.Results[0]]; has && tv.Value != nil && tv.Value.Kind() == constant.Bool && constant.BoolVal(tv.Value) {
+								bad = rs.Pos()
+							}
+						}
+						return true
+					})
+					return true
+				})
+				n++
+				pos := pfi.Decl.Pos()
+				if bad != token.NoPos {
+					pos = bad
+				}
+				r.Ob(rule, fi.Name+"/"+f.Name()+"/true-only-after-all-fields", pos, bad == token.NoPos, "the fill of the doc-value cache is skipped when this predicate is true, so it has to hold for ALL wanted fields; it returns true from inside its loop over them, i.e. after looking at one")
+			}
+		}
+	}
+	if n == 0 {
+		undecidedf("no predicate guarding cachedDocs.prepareFields found")
+	}
+}
+
+// ruleOtherCountsTheListedBuckets (K5): a facet's Other is "total minus the
+// buckets that are LISTED", and the list is sorted and cut to the requested
+// size first.  The tally that is subtracted from the total must therefore be
+// accumulated while walking the result's own (trimmed) list - a tally taken
+// while walking the builder's count map covers every bucket, Other becomes 0
+// and listed + Other no longer adds up to Total.
+func ruleOtherCountsTheListedBuckets(r *Report, rule string) {
+	p := r.P
+	n := 0
+	for _, fi := range p.flist {
+		if fi.Decl == nil || fi.Decl.Body == nil || fi.Decl.Recv == nil || fi.Decl.Name.Name != "Result" || !strings.HasSuffix(fi.Pkg.PkgPath, "search/facet") {
+			continue
+		}
+		info := fi.Pkg.TypesInfo
+		recv := recvObj(fi)
+		rootedLoop := func(at ast.Node) bool {
+			var over ast.Expr
+			for _, anc := range enclosing(fi.Decl.Body, at) {
+				if rs, ok := anc.(*ast.RangeStmt); ok {
+					over = rs.X
+				}
+			}
+			if over == nil {
+				return false
+			}
+			usesRecv, usesLocal := false, false
+			ast.Inspect(over, func(y ast.Node) bool {
+				if id, ok := y.(*ast.Ident); ok {
+					if o := info.ObjectOf(id); o == recv {
+						usesRecv = true
+					} else if v, isVar := o.(*types.Var); isVar && !v.IsField() && declaredWithin(info, fi.Decl.Body, v) {
+						usesLocal = true
+					}
+				}
+				return true
+			})
+			return usesLocal && !usesRecv
+		}
+		for _, st := range storesToField(info, fi.Decl.Body, "FacetResult", "Other") {
+			if st.Tok == token.SUB_ASSIGN {
+				// `rv.Other = total` ... `rv.Other -= listed.Count`: the subtraction itself is the tally
+				n++
+				r.Fn(fi)
+				r.Ob(rule, fmt.Sprintf("%s/subtraction@%d-over-the-listed-buckets", fi.Name, n), st.Stmt.Pos(), rootedLoop(st.Stmt), "the counts subtracted from the total to give Other are taken while ranging over the builder's own counts, not over the result's sorted and trimmed list: every bucket is counted as listed and Other comes out too small")
+				continue
+			}
+			be, ok := ast.Unparen(st.Rhs).(*ast.BinaryExpr)
+			if st.Rhs == nil || !ok || be.Op != token.SUB {
+				continue
+			}
+			tally := objOf(info, be.Y)
+			if tally == nil {
+				continue
+			}
+			r.Fn(fi)
+			k := 0
+			ast.Inspect(fi.Decl.Body, func(x ast.Node) bool {
+				as, ok := x.(*ast.AssignStmt)
+				if !ok || len(as.Lhs) != 1 || objOf(info, as.Lhs[0]) != tally || (as.Tok != token.ADD_ASSIGN && as.Tok != token.ASSIGN) {
+					return true
+				}
+				if as.Tok == token.ASSIGN {
+					if tv, has := info.Types[as.Rhs[0]]; has && tv.Value != nil {
+						return true // reset to a constant
+					}
+				}
+				// the loop the tally is taken in
+				var over ast.Expr
+				for _, anc := range enclosing(fi.Decl.Body, as) {
+					if rs, ok := anc.(*ast.RangeStmt); ok {
+						over = rs.X
+					}
+				}
+				rooted := false
+				if over != nil {
+					usesRecv, usesLocal := false, false
+					ast.Inspect(over, func(y ast.Node) bool { // rv.NumericRanges, rv.Terms.Terms()
+						if id, ok := y.(*ast.Ident); ok {
+							if o := info.ObjectOf(id); o == recv {
+								usesRecv = true
+							} else if v, isVar := o.(*types.Var); isVar && !v.IsField() && declaredWithin(info, fi.Decl.Body, v) {
+								usesLocal = true
+							}
+						}
+						return true
+					})
+					rooted = usesLocal && !usesRecv
+				}
+				n++
+				k++
+				r.Ob(rule, fmt.Sprintf("%s/tally#%d-over-the-listed-buckets", fi.Name, k), as.Pos(), rooted, "the tally subtracted from the total to give Other is accumulated while ranging over the builder's own counts, not over the result's sorted and trimmed list: every bucket is counted as listed and Other comes out too small")
+				return true
+			})
+		}
+	}
+	if n < 3 {
+		undecidedf("facet builders' Other computation not recognised (%d tallies)", n)
+	}
 }
